@@ -1,0 +1,184 @@
+//go:build verif
+
+// Contracts for the deductive checker in /verif (comment-only; compiled only with -tags verif).
+// C13: per-record analysis values equal their definitions (float64 idealised as real numbers).
+//
+// Spec functions over a real-valued map A (the backing array of a []float64):
+//   SumA(A,a,b)        = sum of A[k] for a <= k < b
+//   SumSqDev(A,a,b,m)  = sum of (A[k]-m)^2
+//   SumLev(A,a,b,y0,c) = sum of (A[k]-y0)*((k-a)-c)          (lever-arm sum of the slope estimate)
+// defined by their recursion equations (defaxiom), used only through explicit instances.
+
+package dastard
+
+//@ ufunc SumA(A realmap, a int, b int) real
+//@ defaxiom sum_empty: forall A realmap, a int :: {SumA(A, a, a)} SumA(A, a, a) == 0.0
+//@ defaxiom sum_step: forall A realmap, a int, b int :: {SumA(A, a, b + 1)} a <= b ==> SumA(A, a, b + 1) == SumA(A, a, b) + A[b]
+//@ ufunc SumSqDev(A realmap, a int, b int, m real) real
+//@ defaxiom sqdev_empty: forall A realmap, a int, m real :: {SumSqDev(A, a, a, m)} SumSqDev(A, a, a, m) == 0.0
+//@ defaxiom sqdev_step: forall A realmap, a int, b int, m real :: {SumSqDev(A, a, b + 1, m)} a <= b ==> SumSqDev(A, a, b + 1, m) == SumSqDev(A, a, b, m) + (A[b] - m) * (A[b] - m)
+//@ ufunc SumLev(A realmap, a int, b int, y0 real, c real) real
+//@ defaxiom lev_empty: forall A realmap, a int, y0 real, c real :: {SumLev(A, a, a, y0, c)} SumLev(A, a, a, y0, c) == 0.0
+//@ defaxiom lev_step: forall A realmap, a int, b int, y0 real, c real :: {SumLev(A, a, b + 1, y0, c)} a <= b ==> SumLev(A, a, b + 1, y0, c) == SumLev(A, a, b, y0, c) + (A[b] - y0) * (real(b - a) - c)
+
+//@ ufunc MaxA(A realmap, a int, b int, m0 real) real
+//@ defaxiom max_empty: forall A realmap, a int, m0 real :: {MaxA(A, a, a, m0)} MaxA(A, a, a, m0) == m0
+//@ defaxiom max_step: forall A realmap, a int, b int, m0 real :: {MaxA(A, a, b + 1, m0)} a <= b ==> MaxA(A, a, b + 1, m0) == max(MaxA(A, a, b, m0), A[b])
+
+// The same sums over a record's raw samples R (integers), interpreted as signed (two's complement
+// 16 bit) or unsigned per the record: conv(x, sgn).
+//@ pred conv(x int, sgn bool) := ite(sgn, real(int16(x)), real(x))
+//@ ufunc SumR(R intmap, sgn bool, a int, b int) real
+//@ defaxiom sumr_empty: forall R intmap, sgn bool, a int :: {SumR(R, sgn, a, a)} SumR(R, sgn, a, a) == 0.0
+//@ defaxiom sumr_step: forall R intmap, sgn bool, a int, b int :: {SumR(R, sgn, a, b + 1)} a <= b ==> SumR(R, sgn, a, b + 1) == SumR(R, sgn, a, b) + conv(R[b], sgn)
+//@ ufunc SqDevR(R intmap, sgn bool, a int, b int, m real) real
+//@ defaxiom sqdevr_empty: forall R intmap, sgn bool, a int, m real :: {SqDevR(R, sgn, a, a, m)} SqDevR(R, sgn, a, a, m) == 0.0
+//@ defaxiom sqdevr_step: forall R intmap, sgn bool, a int, b int, m real :: {SqDevR(R, sgn, a, b + 1, m)} a <= b ==> SqDevR(R, sgn, a, b + 1, m) == SqDevR(R, sgn, a, b, m) + (conv(R[b], sgn) - m) * (conv(R[b], sgn) - m)
+//@ ufunc LevR(R intmap, sgn bool, a int, b int, y0 real, c real) real
+//@ defaxiom levr_empty: forall R intmap, sgn bool, a int, y0 real, c real :: {LevR(R, sgn, a, a, y0, c)} LevR(R, sgn, a, a, y0, c) == 0.0
+//@ defaxiom levr_step: forall R intmap, sgn bool, a int, b int, y0 real, c real :: {LevR(R, sgn, a, b + 1, y0, c)} a <= b ==> LevR(R, sgn, a, b + 1, y0, c) == LevR(R, sgn, a, b, y0, c) + (conv(R[b], sgn) - y0) * (real(b - a) - c)
+//@ ufunc MaxR(R intmap, sgn bool, a int, b int, m0 real) real
+//@ defaxiom maxr_empty: forall R intmap, sgn bool, a int, m0 real :: {MaxR(R, sgn, a, a, m0)} MaxR(R, sgn, a, a, m0) == m0
+//@ defaxiom maxr_step: forall R intmap, sgn bool, a int, b int, m0 real :: {MaxR(R, sgn, a, b + 1, m0)} a <= b ==> MaxR(R, sgn, a, b + 1, m0) == max(MaxR(R, sgn, a, b, m0), conv(R[b], sgn))
+
+// sqrt(x) in specifications is the same uninterpreted function (rsqrt); its square property: sqrt_sq
+//@ extern func math.Sqrt
+//@   pure
+//@   ensures result == sqrt(x) && (x >= 0.0 ==> result >= 0.0 && result * result == x)
+// expanding the mean square deviation: (s2 - 2 p s + n p^2)/n = s2/n - 2 p (s/n) + p^2
+//@ lemma meansq_expand C13: forall s2 real, s real, p real, n real :: n > 0.0 ==> (s2 - 2.0 * p * s + n * p * p) / n == s2 / n - 2.0 * p * (s / n) + p * p
+//@ extern func math.NaN
+//@   pure
+
+// stdDev: population standard deviation: sqrt( (1/n) * sum (a[k]-mean)^2 ), mean = (1/n) * sum a[k].
+//@ func stdDev
+//@   props C13
+//@   requires allocated(a)
+//@   ensures len(a) > 0 ==> result >= 0.0 && result * result == SumSqDev(arrayof(a), a.off, a.off + len(a), SumA(arrayof(a), a.off, a.off + len(a)) / real(len(a))) / real(len(a))
+//@   modifies nothing
+//@   apply sum_empty(arrayof(a), a.off) && (forall m real :: {SumSqDev(arrayof(a), a.off, a.off, m)} sqdev_empty(arrayof(a), a.off, m))
+//@   loop 1
+//@     invariant -1 <= rangeindex && rangeindex <= len(a) - 1 && len(a) > 0 && s == SumA(arrayof(a), a.off, a.off + rangeindex + 1)
+//@     apply sum_step(arrayof(a), a.off, a.off + rangeindex + 1)
+//@   loop 2
+//@     invariant -1 <= rangeindex && rangeindex <= len(a) - 1 && len(a) > 0 && mean == SumA(arrayof(a), a.off, a.off + len(a)) / real(len(a)) && s2 == SumSqDev(arrayof(a), a.off, a.off + rangeindex + 1, mean) && s2 >= 0.0
+//@     apply sqdev_step(arrayof(a), a.off, a.off + rangeindex + 1, mean)
+
+// ---- gonum vectors through their real fields (trusted library contracts) ----
+//@ extern func gonum.org/v1/gonum/mat.NewVecDense
+//@   requires n > 0 && len(data) == n
+//@   ensures result != nil && fresh(result) && result.mat.N == n && result.mat.Inc == 1 && result.mat.Data == data
+//@ extern func (*gonum.org/v1/gonum/mat.VecDense).SetVec
+//@   requires 0 <= i && i < v.mat.N && v.mat.Inc == 1 && v.mat.N <= len(v.mat.Data)
+//@   ensures at(v.mat.Data, v.mat.Data.off + i) == val && (forall p int :: {at(v.mat.Data, p)} p != v.mat.Data.off + i ==> at(v.mat.Data, p) == oldat(v.mat.Data, p))
+//@   modifies v.mat.Data[*]
+//@ extern func (*gonum.org/v1/gonum/mat.VecDense).AtVec
+//@   pure
+//@   requires 0 <= i && i < v.mat.N && v.mat.Inc == 1 && v.mat.N <= len(v.mat.Data)
+//@   ensures result == at(v.mat.Data, v.mat.Data.off + i)
+
+//@ extern func (*gonum.org/v1/gonum/mat.Dense).IsEmpty
+//@   pure
+//@   ensures result == !hasprojectors(m)
+// v = a * b: needs cols(a) = len(b); v becomes a vector of rows(a) entries (it may reuse its own storage or allocate)
+//@ extern func (*gonum.org/v1/gonum/mat.VecDense).MulVec
+//@   requires typeis(a, "*mat.Dense") && typeis(b, "*mat.VecDense") && unbox(a, "*mat.Dense") != nil && unbox(b, "*mat.VecDense") != nil && dims1(unbox(a, "*mat.Dense")) == unbox(b, "*mat.VecDense").mat.N && unbox(b, "*mat.VecDense") != v
+//@   ensures v.mat.N == dims0(unbox(a, "*mat.Dense")) && v.mat.Inc == 1 && allocated(v.mat.Data) && v.mat.N <= len(v.mat.Data) && (v.mat.Data.arr == old(v.mat.Data.arr) || fresh(v.mat.Data))
+//@   modifies v.mat.N, v.mat.Inc, v.mat.Data, v.mat.Data[*]
+//@ extern func (*gonum.org/v1/gonum/mat.VecDense).SubVec
+//@   requires typeis(a, "*mat.VecDense") && typeis(b, "*mat.VecDense") && unbox(a, "*mat.VecDense") != nil && unbox(b, "*mat.VecDense") != nil && unbox(a, "*mat.VecDense").mat.N == unbox(b, "*mat.VecDense").mat.N
+//@   ensures v.mat.N == unbox(a, "*mat.VecDense").mat.N && v.mat.Inc == 1 && allocated(v.mat.Data) && v.mat.N <= len(v.mat.Data) && (v.mat.Data.arr == old(v.mat.Data.arr) || fresh(v.mat.Data))
+//@   modifies v.mat.N, v.mat.Inc, v.mat.Data, v.mat.Data[*]
+//@ extern func gonum.org/v1/gonum/mat.Col
+//@   requires j == 0 && typeis(a, "*mat.VecDense") && unbox(a, "*mat.VecDense") != nil && len(dst) == unbox(a, "*mat.VecDense").mat.N && dst.arr != 0
+//@   ensures result == dst
+//@   modifies dst[*]
+
+//@ func (*DataStreamProcessor).HasProjectors
+//@   props C13 C06
+//@   ensures result == (dsp.projectors != nil && hasprojectors(dsp.projectors))
+//@   modifies nothing
+
+// ProjOK: when projectors are loaded they fit the records (projectors: nbases x n, basis: n x nbases).
+//@ pred ProjOK(d *DataStreamProcessor, rs []*DataRecord) := d.projectors != nil && hasprojectors(d.projectors) ==> d.basis != nil && dims0(d.projectors) >= 0 && dims1(d.basis) == dims0(d.projectors)
+//@        && (forall p int :: {at(rs, p)} rs.off <= p && p < rs.off + len(rs) ==> dims1(d.projectors) == len(at(rs, p).data) && dims0(d.basis) == len(at(rs, p).data))
+
+// D(r, k): sample k of record r as a real number, interpreted as signed or unsigned per the record.
+//@ pred D(r *DataRecord, k int) := conv(at(r.data, r.data.off + k), r.signed)
+
+// The analysis values of record r equal their definitions (over the reals), all relative to the
+// pre-trigger mean; npre = r.presamples, n = len(r.data), N = n - npre.  Pre-trigger delta is the
+// lever-arm sum Sum (d_k - d_0)(k - (npre-1)/2) times 12/(npre(npre+1)), which equals the least-squares
+// slope times the pre-trigger span (npre-1) because Sum (k - (npre-1)/2) = 0 and
+// Sum (k - (npre-1)/2)^2 = npre(npre^2-1)/12 (standard closed forms, not machine-checked here).
+//@ pred MeanOK(r *DataRecord) := r.pretrigMean == SumR(arrayof(r.data), r.signed, r.data.off, r.data.off + r.presamples) / real(r.presamples)
+// (the arithmetic of the two nonlinear definitions is kept behind opaque spec functions; their definitions are used where the values are computed)
+//@ define DeltaVal(lev real, npre int) real := lev * 12.0 / real(npre * (npre + 1))
+//@ define MeanSq(sq real, n int) real := sq / real(n)
+//@ pred DeltaOK(r *DataRecord) := r.presamples > 1 ==> r.pretrigDelta == DeltaVal(LevR(arrayof(r.data), r.signed, r.data.off, r.data.off + r.presamples, D(r, 0), real(r.presamples - 1) * 0.5), r.presamples)
+//@ pred AverageOK(r *DataRecord) := r.pulseAverage == SumR(arrayof(r.data), r.signed, r.data.off + r.presamples, r.data.off + len(r.data)) / real(len(r.data) - r.presamples) - r.pretrigMean
+//@ pred RMSOK(r *DataRecord) := r.pulseRMS == sqrt(MeanSq(SqDevR(arrayof(r.data), r.signed, r.data.off + r.presamples, r.data.off + len(r.data), r.pretrigMean), len(r.data) - r.presamples))
+//@ pred PeakOK(r *DataRecord) := r.peakValue == MaxR(arrayof(r.data), r.signed, r.data.off + r.presamples, r.data.off + len(r.data), r.pretrigMean) - r.pretrigMean
+
+// Records to analyse: real, pairwise distinct records with at least 2 pre-trigger and 1 post-trigger sample.
+//@ pred Analyzable(rs []*DataRecord) := allocated(rs) && (forall p int :: {at(rs, p)} rs.off <= p && p < rs.off + len(rs) ==> at(rs, p) != nil && allocated(at(rs, p)) && allocated(at(rs, p).data) && 1 <= at(rs, p).presamples && at(rs, p).presamples < len(at(rs, p).data) && len(at(rs, p).data) < 1073741824 && allocated(at(rs, p).modelCoefs))
+//@        && (forall p int, q int :: {at(rs, p), at(rs, q)} rs.off <= p && p < q && q < rs.off + len(rs) ==> at(rs, p) != at(rs, q))
+
+//@ func (*DataStreamProcessor).AnalyzeData
+//@   props C13
+//@   uses sumr_empty levr_empty sqdevr_empty maxr_empty
+//@   requires Analyzable(records) && ProjOK(dsp, records)
+//@   ensures readable: RecsReadable(records)
+//@   ensures coefs: OffFits(dsp) && dsp.OFF != nil ==> (forall p int :: {at(records, p)} records.off <= p && p < records.off + len(records) ==> len(at(records, p).modelCoefs) == dsp.OFF.NumberOfBases)
+//@   ensures mean: forall p int :: {at(records, p)} records.off <= p && p < records.off + len(records) ==> MeanOK(at(records, p))
+//@   ensures delta: forall p int :: {at(records, p)} records.off <= p && p < records.off + len(records) ==> DeltaOK(at(records, p))
+//@   ensures average: forall p int :: {at(records, p)} records.off <= p && p < records.off + len(records) ==> AverageOK(at(records, p))
+//@   ensures rms: forall p int :: {at(records, p)} records.off <= p && p < records.off + len(records) ==> RMSOK(at(records, p))
+//@   ensures peak: forall p int :: {at(records, p)} records.off <= p && p < records.off + len(records) ==> PeakOK(at(records, p))
+//@   modifies any(DataRecord).pretrigMean, any(DataRecord).pretrigDelta, any(DataRecord).pulseAverage, any(DataRecord).pulseRMS, any(DataRecord).peakValue, any(DataRecord).modelCoefs, any(DataRecord).residualStdDev
+//@   cut before HasProjectors: defmsq: MeanSq_def(SqDevR(arrayof(rec.data), rec.signed, rec.data.off + rec.presamples, rec.data.off + len(rec.data), rec.pretrigMean), len(rec.data) - rec.presamples)
+//@   cut before HasProjectors: expand: meansq_expand(sum2, sum, ptm, N)
+//@   cut before HasProjectors: msq: meanSquare == MeanSq(SqDevR(arrayof(rec.data), rec.signed, rec.data.off + rec.presamples, rec.data.off + len(rec.data), rec.pretrigMean), len(rec.data) - rec.presamples)
+//@   cut before HasProjectors: rms: RMSOK(rec)
+//@   cut before HasProjectors: others: MeanOK(rec) && DeltaOK(rec) && AverageOK(rec) && PeakOK(rec)
+//@   loop 1
+//@     invariant -1 <= rangeindex && rangeindex <= len(records) - 1 && Analyzable(records) && ProjOK(dsp, records) && unchanged(dsp.projectors, dsp.basis, dsp.OFF)
+//@     hint cur: rec == at(records, records.off + rangeindex)
+//@     hint curmean: MeanOK(rec)
+//@     hint curdelta: DeltaOK(rec)
+//@     hint curavg: AverageOK(rec)
+//@     hint curpeak: PeakOK(rec)
+//@     hint currms: RMSOK(rec)
+//@     invariant temps: (modelCoefs.mat.Data.arr == 0 || fresh(modelCoefs.mat.Data)) && (modelFull.mat.Data.arr == 0 || fresh(modelFull.mat.Data)) && (residual.mat.Data.arr == 0 || fresh(residual.mat.Data)) && allocated(modelCoefs.mat.Data) && allocated(modelFull.mat.Data) && allocated(residual.mat.Data)
+//@     invariant data: forall p int :: {at(records, p)} records.off <= p && p < records.off + len(records) ==> unchanged(at(records, p).data, at(records, p).presamples, at(records, p).signed)
+//@     invariant readable: forall p int :: {at(records, p)} records.off <= p && p < records.off + len(records) ==> allocated(at(records, p).modelCoefs)
+//@     invariant coefs: dsp.projectors != nil && hasprojectors(dsp.projectors) ==> (forall p int :: {at(records, p)} records.off <= p && p <= records.off + rangeindex ==> len(at(records, p).modelCoefs) == dims0(dsp.projectors))
+//@     invariant mean: forall p int :: {at(records, p)} records.off <= p && p <= records.off + rangeindex ==> MeanOK(at(records, p))
+//@     invariant delta: forall p int :: {at(records, p)} records.off <= p && p < records.off + rangeindex ==> DeltaOK(at(records, p))
+//@     invariant deltacur: rangeindex >= 0 ==> DeltaOK(at(records, records.off + rangeindex))
+//@     invariant average: forall p int :: {at(records, p)} records.off <= p && p <= records.off + rangeindex ==> AverageOK(at(records, p))
+//@     invariant rms: forall p int :: {at(records, p)} records.off <= p && p <= records.off + rangeindex ==> RMSOK(at(records, p))
+//@     invariant peak: forall p int :: {at(records, p)} records.off <= p && p <= records.off + rangeindex ==> PeakOK(at(records, p))
+//@   loop 2
+//@     invariant -1 <= rangeindex2 && rangeindex2 <= len(rec.data) - 1 && 0 <= rangeindex1 && rangeindex1 < len(records) && rec == at(records, records.off + rangeindex1) && rec.signed
+//@     invariant vec: dataVec.mat.N == len(rec.data) && dataVec.mat.Inc == 1 && len(dataVec.mat.Data) == len(rec.data) && fresh(dataVec.mat.Data) && dataVec.mat.Data.off == 0 && allocated(dataVec.mat.Data) && dataVec.mat.Data.arr != 0
+//@     invariant filled: forall k int :: {at(dataVec.mat.Data, k)} 0 <= k && k <= rangeindex2 ==> at(dataVec.mat.Data, k) == D(rec, k)
+//@   loop 3
+//@     invariant -1 <= rangeindex3 && rangeindex3 <= len(rec.data) - 1 && 0 <= rangeindex1 && rangeindex1 < len(records) && rec == at(records, records.off + rangeindex1) && !rec.signed
+//@     invariant vec: dataVec.mat.N == len(rec.data) && dataVec.mat.Inc == 1 && len(dataVec.mat.Data) == len(rec.data) && fresh(dataVec.mat.Data) && dataVec.mat.Data.off == 0 && allocated(dataVec.mat.Data) && dataVec.mat.Data.arr != 0
+//@     invariant filled: forall k int :: {at(dataVec.mat.Data, k)} 0 <= k && k <= rangeindex3 ==> at(dataVec.mat.Data, k) == D(rec, k)
+//@   loop 4
+//@     invariant 0 <= i && i <= npre && npre == rec.presamples && 0 <= rangeindex1 && rangeindex1 < len(records) && rec == at(records, records.off + rangeindex1)
+//@     invariant vec: dataVec.mat.N == len(rec.data) && dataVec.mat.Inc == 1 && len(dataVec.mat.Data) == len(rec.data) && fresh(dataVec.mat.Data) && dataVec.mat.Data.off == 0 && allocated(dataVec.mat.Data) && dataVec.mat.Data.arr != 0
+//@     invariant filled: forall k int :: {at(dataVec.mat.Data, k)} 0 <= k && k < len(rec.data) ==> at(dataVec.mat.Data, k) == D(rec, k)
+//@     invariant sums: val == SumR(arrayof(rec.data), rec.signed, rec.data.off, rec.data.off + i) && valPTDelta == LevR(arrayof(rec.data), rec.signed, rec.data.off, rec.data.off + i, d0, xmean) && d0 == D(rec, 0) && xmean == real(npre - 1) * 0.5
+//@     apply DeltaVal_def(LevR(arrayof(rec.data), rec.signed, rec.data.off, rec.data.off + rec.presamples, D(rec, 0), real(rec.presamples - 1) * 0.5), rec.presamples)
+//@     apply sumr_step(arrayof(rec.data), rec.signed, rec.data.off, rec.data.off + i) && levr_step(arrayof(rec.data), rec.signed, rec.data.off, rec.data.off + i, d0, xmean)
+//@   loop 5
+//@     invariant rec.presamples <= i && i <= len(rec.data) && npre == rec.presamples && 0 <= rangeindex1 && rangeindex1 < len(records) && rec == at(records, records.off + rangeindex1)
+//@     invariant vec: dataVec.mat.N == len(rec.data) && dataVec.mat.Inc == 1 && len(dataVec.mat.Data) == len(rec.data) && fresh(dataVec.mat.Data) && dataVec.mat.Data.off == 0 && allocated(dataVec.mat.Data) && dataVec.mat.Data.arr != 0
+//@     invariant filled: forall k int :: {at(dataVec.mat.Data, k)} 0 <= k && k < len(rec.data) ==> at(dataVec.mat.Data, k) == D(rec, k)
+//@     invariant pre: rec.pretrigMean == ptm && MeanOK(rec) && DeltaOK(rec)
+//@     invariant sums: sum == SumR(arrayof(rec.data), rec.signed, rec.data.off + npre, rec.data.off + i) && sum2 - 2.0 * ptm * sum + real(i - npre) * ptm * ptm == SqDevR(arrayof(rec.data), rec.signed, rec.data.off + npre, rec.data.off + i, ptm)
+//@          && max == MaxR(arrayof(rec.data), rec.signed, rec.data.off + npre, rec.data.off + i, ptm) && SqDevR(arrayof(rec.data), rec.signed, rec.data.off + npre, rec.data.off + i, ptm) >= 0.0
+//@     apply sumr_step(arrayof(rec.data), rec.signed, rec.data.off + npre, rec.data.off + i) && sqdevr_step(arrayof(rec.data), rec.signed, rec.data.off + npre, rec.data.off + i, ptm) && maxr_step(arrayof(rec.data), rec.signed, rec.data.off + npre, rec.data.off + i, ptm)
